@@ -356,7 +356,7 @@ class Interp:
             raise
         self.w.rec("cb-result-call", pos=pos)
         res = cb.result()
-        return [canon(cb.callback_id)[1], between, res]
+        return ["cb", between, res]  # the backend-issued id is not part of the observation (it differs between executions)
 
     def op_wfc(self, ctx, st, pos, item):
         C = self.cfgmod
